@@ -131,7 +131,9 @@ func plugSat(cand string, k plugKind) bool {
 
 // ---- contract side: a registry that records the kernel methods and a contract context over a shared store
 
-type capReg struct{ m map[string]contract.KernMethod }
+type capReg struct {
+	m map[string]contract.KernMethod
+}
 
 func (r *capReg) RegisterKernMethod(c, m string, f contract.KernMethod) { r.m[c+"/"+m] = f }
 func (r *capReg) RegisterShortcut(string, string, string)               {}
